@@ -137,6 +137,32 @@ void setDataObject_c(const char* name, const char* type, void* value);
 void setDataConstObject_c(const char* name, const char* type, const void* value);
 MockValue_c getData_c(const char* name);
 int hasReturnValue_c();
+int actualCallHasReturnValue_c();
+MockValue_c mockReturnValue_c();
+int mockBoolReturnValue_c();
+int mockReturnBoolValueOrDefault_c(int defaultValue);
+int mockIntReturnValue_c();
+int mockReturnIntValueOrDefault_c(int defaultValue);
+unsigned int mockUnsignedIntReturnValue_c();
+unsigned int mockReturnUnsignedIntValueOrDefault_c(unsigned int defaultValue);
+long int mockLongIntReturnValue_c();
+long int mockReturnLongIntValueOrDefault_c(long int defaultValue);
+unsigned long int mockUnsignedLongIntReturnValue_c();
+unsigned long int mockReturnUnsignedLongIntValueOrDefault_c(unsigned long int defaultValue);
+cpputest_longlong mockLongLongIntReturnValue_c();
+cpputest_longlong mockReturnLongLongIntValueOrDefault_c(cpputest_longlong defaultValue);
+cpputest_ulonglong mockUnsignedLongLongIntReturnValue_c();
+cpputest_ulonglong mockReturnUnsignedLongLongIntValueOrDefault_c(cpputest_ulonglong defaultValue);
+const char* mockStringReturnValue_c();
+const char* mockReturnStringValueOrDefault_c(const char* defaultValue);
+double mockDoubleReturnValue_c();
+double mockReturnDoubleValueOrDefault_c(double defaultValue);
+void* mockPointerReturnValue_c();
+void* mockReturnPointerValueOrDefault_c(void* defaultValue);
+const void* mockConstPointerReturnValue_c();
+const void* mockReturnConstPointerValueOrDefault_c(const void* defaultValue);
+void (*mockFunctionPointerReturnValue_c())();
+void (*mockReturnFunctionPointerValueOrDefault_c(void(*defaultValue)()))();
 
 void checkExpectations_c();
 int expectedCallsLeft_c();
@@ -295,7 +321,7 @@ static MockActualCall_c gActualCall = {
         withActualParameterOfType_c,
         withActualOutputParameter_c,
         withActualOutputParameterOfType_c,
-        hasReturnValue_c,
+        actualCallHasReturnValue_c,
         returnValue_c,
         boolReturnValue_c,
         returnBoolValueOrDefault_c,
@@ -330,31 +356,31 @@ static MockSupport_c gMockSupport = {
         expectNCalls_c,
         actualCall_c,
         hasReturnValue_c,
-        returnValue_c,
-        boolReturnValue_c,
-        returnBoolValueOrDefault_c,
-        intReturnValue_c,
-        returnIntValueOrDefault_c,
-        unsignedIntReturnValue_c,
-        returnUnsignedIntValueOrDefault_c,
-        longIntReturnValue_c,
-        returnLongIntValueOrDefault_c,
-        unsignedLongIntReturnValue_c,
-        returnUnsignedLongIntValueOrDefault_c,
-        longLongIntReturnValue_c,
-        returnLongLongIntValueOrDefault_c,
-        unsignedLongLongIntReturnValue_c,
-        returnUnsignedLongLongIntValueOrDefault_c,
-        stringReturnValue_c,
-        returnStringValueOrDefault_c,
-        doubleReturnValue_c,
-        returnDoubleValueOrDefault_c,
-        pointerReturnValue_c,
-        returnPointerValueOrDefault_c,
-        constPointerReturnValue_c,
-        returnConstPointerValueOrDefault_c,
-        functionPointerReturnValue_c,
-        returnFunctionPointerValueOrDefault_c,
+        mockReturnValue_c,
+        mockBoolReturnValue_c,
+        mockReturnBoolValueOrDefault_c,
+        mockIntReturnValue_c,
+        mockReturnIntValueOrDefault_c,
+        mockUnsignedIntReturnValue_c,
+        mockReturnUnsignedIntValueOrDefault_c,
+        mockLongIntReturnValue_c,
+        mockReturnLongIntValueOrDefault_c,
+        mockUnsignedLongIntReturnValue_c,
+        mockReturnUnsignedLongIntValueOrDefault_c,
+        mockLongLongIntReturnValue_c,
+        mockReturnLongLongIntValueOrDefault_c,
+        mockUnsignedLongLongIntReturnValue_c,
+        mockReturnUnsignedLongLongIntValueOrDefault_c,
+        mockStringReturnValue_c,
+        mockReturnStringValueOrDefault_c,
+        mockDoubleReturnValue_c,
+        mockReturnDoubleValueOrDefault_c,
+        mockPointerReturnValue_c,
+        mockReturnPointerValueOrDefault_c,
+        mockConstPointerReturnValue_c,
+        mockReturnConstPointerValueOrDefault_c,
+        mockFunctionPointerReturnValue_c,
+        mockReturnFunctionPointerValueOrDefault_c,
         setBoolData_c,
         setIntData_c,
         setUnsignedIntData_c,
@@ -818,7 +844,7 @@ int boolReturnValue_c()
 
 int returnBoolValueOrDefault_c(int defaultValue)
 {
-    if (!hasReturnValue_c()) {
+    if (!actualCallHasReturnValue_c()) {
         return defaultValue;
     }
     return boolReturnValue_c();
@@ -831,7 +857,7 @@ int intReturnValue_c()
 
 int returnIntValueOrDefault_c(int defaultValue)
 {
-    if (!hasReturnValue_c()) {
+    if (!actualCallHasReturnValue_c()) {
         return defaultValue;
     }
     return intReturnValue_c();
@@ -844,7 +870,7 @@ unsigned int unsignedIntReturnValue_c()
 
 unsigned int returnUnsignedIntValueOrDefault_c(unsigned int defaultValue)
 {
-    if (!hasReturnValue_c()) {
+    if (!actualCallHasReturnValue_c()) {
         return defaultValue;
     }
     return unsignedIntReturnValue_c();
@@ -857,7 +883,7 @@ long int longIntReturnValue_c()
 
 long int returnLongIntValueOrDefault_c(long int defaultValue)
 {
-    if (!hasReturnValue_c()) {
+    if (!actualCallHasReturnValue_c()) {
         return defaultValue;
     }
     return longIntReturnValue_c();
@@ -870,7 +896,7 @@ unsigned long int unsignedLongIntReturnValue_c()
 
 unsigned long int returnUnsignedLongIntValueOrDefault_c(unsigned long int defaultValue)
 {
-    if (!hasReturnValue_c()) {
+    if (!actualCallHasReturnValue_c()) {
         return defaultValue;
     }
     return unsignedLongIntReturnValue_c();
@@ -885,7 +911,7 @@ cpputest_longlong longLongIntReturnValue_c()
 
 cpputest_longlong returnLongLongIntValueOrDefault_c(cpputest_longlong defaultValue)
 {
-    if (!hasReturnValue_c()) {
+    if (!actualCallHasReturnValue_c()) {
         return defaultValue;
     }
     return longLongIntReturnValue_c();
@@ -898,7 +924,7 @@ cpputest_ulonglong unsignedLongLongIntReturnValue_c()
 
 cpputest_ulonglong returnUnsignedLongLongIntValueOrDefault_c(cpputest_ulonglong defaultValue)
 {
-    if (!hasReturnValue_c()) {
+    if (!actualCallHasReturnValue_c()) {
         return defaultValue;
     }
     return unsignedLongLongIntReturnValue_c();
@@ -943,7 +969,7 @@ const char* stringReturnValue_c()
 
 const char* returnStringValueOrDefault_c(const char * defaultValue)
 {
-    if (!hasReturnValue_c()) {
+    if (!actualCallHasReturnValue_c()) {
         return defaultValue;
     }
     return stringReturnValue_c();
@@ -956,7 +982,7 @@ double doubleReturnValue_c()
 
 double returnDoubleValueOrDefault_c(double defaultValue)
 {
-    if (!hasReturnValue_c()) {
+    if (!actualCallHasReturnValue_c()) {
         return defaultValue;
     }
     return doubleReturnValue_c();
@@ -969,7 +995,7 @@ void* pointerReturnValue_c()
 
 void* returnPointerValueOrDefault_c(void * defaultValue)
 {
-    if (!hasReturnValue_c()) {
+    if (!actualCallHasReturnValue_c()) {
         return defaultValue;
     }
     return pointerReturnValue_c();
@@ -982,7 +1008,7 @@ const void* constPointerReturnValue_c()
 
 const void* returnConstPointerValueOrDefault_c(const void * defaultValue)
 {
-    if (!hasReturnValue_c()) {
+    if (!actualCallHasReturnValue_c()) {
         return defaultValue;
     }
     return constPointerReturnValue_c();
@@ -995,7 +1021,7 @@ void (*functionPointerReturnValue_c())()
 
 void (*returnFunctionPointerValueOrDefault_c(void (*defaultValue)()))()
 {
-    if (!hasReturnValue_c()) {
+    if (!actualCallHasReturnValue_c()) {
         return defaultValue;
     }
     return functionPointerReturnValue_c();
@@ -1074,6 +1100,139 @@ MockValue_c getData_c(const char* name)
 int hasReturnValue_c()
 {
     return currentMockSupport->hasReturnValue();
+}
+
+int actualCallHasReturnValue_c()
+{
+    return actualCall->hasReturnValue();
+}
+
+MockValue_c mockReturnValue_c()
+{
+    return getMockValueCFromNamedValue(currentMockSupport->returnValue());
+}
+
+int mockBoolReturnValue_c()
+{
+    return currentMockSupport->boolReturnValue() ? 1 : 0;
+}
+
+int mockReturnBoolValueOrDefault_c(int defaultValue)
+{
+    if (!hasReturnValue_c()) {
+        return defaultValue;
+    }
+    return mockBoolReturnValue_c();
+}
+
+int mockIntReturnValue_c()
+{
+    return currentMockSupport->intReturnValue();
+}
+
+int mockReturnIntValueOrDefault_c(int defaultValue)
+{
+    return currentMockSupport->returnIntValueOrDefault(defaultValue);
+}
+
+unsigned int mockUnsignedIntReturnValue_c()
+{
+    return currentMockSupport->unsignedIntReturnValue();
+}
+
+unsigned int mockReturnUnsignedIntValueOrDefault_c(unsigned int defaultValue)
+{
+    return currentMockSupport->returnUnsignedIntValueOrDefault(defaultValue);
+}
+
+long int mockLongIntReturnValue_c()
+{
+    return currentMockSupport->longIntReturnValue();
+}
+
+long int mockReturnLongIntValueOrDefault_c(long int defaultValue)
+{
+    return currentMockSupport->returnLongIntValueOrDefault(defaultValue);
+}
+
+unsigned long int mockUnsignedLongIntReturnValue_c()
+{
+    return currentMockSupport->unsignedLongIntReturnValue();
+}
+
+unsigned long int mockReturnUnsignedLongIntValueOrDefault_c(unsigned long int defaultValue)
+{
+    return currentMockSupport->returnUnsignedLongIntValueOrDefault(defaultValue);
+}
+
+cpputest_longlong mockLongLongIntReturnValue_c()
+{
+    return currentMockSupport->longLongIntReturnValue();
+}
+
+cpputest_longlong mockReturnLongLongIntValueOrDefault_c(cpputest_longlong defaultValue)
+{
+    return currentMockSupport->returnLongLongIntValueOrDefault(defaultValue);
+}
+
+cpputest_ulonglong mockUnsignedLongLongIntReturnValue_c()
+{
+    return currentMockSupport->unsignedLongLongIntReturnValue();
+}
+
+cpputest_ulonglong mockReturnUnsignedLongLongIntValueOrDefault_c(cpputest_ulonglong defaultValue)
+{
+    return currentMockSupport->returnUnsignedLongLongIntValueOrDefault(defaultValue);
+}
+
+const char* mockStringReturnValue_c()
+{
+    return currentMockSupport->stringReturnValue();
+}
+
+const char* mockReturnStringValueOrDefault_c(const char* defaultValue)
+{
+    return currentMockSupport->returnStringValueOrDefault(defaultValue);
+}
+
+double mockDoubleReturnValue_c()
+{
+    return currentMockSupport->doubleReturnValue();
+}
+
+double mockReturnDoubleValueOrDefault_c(double defaultValue)
+{
+    return currentMockSupport->returnDoubleValueOrDefault(defaultValue);
+}
+
+void* mockPointerReturnValue_c()
+{
+    return currentMockSupport->pointerReturnValue();
+}
+
+void* mockReturnPointerValueOrDefault_c(void* defaultValue)
+{
+    return currentMockSupport->returnPointerValueOrDefault(defaultValue);
+}
+
+const void* mockConstPointerReturnValue_c()
+{
+    return currentMockSupport->constPointerReturnValue();
+}
+
+const void* mockReturnConstPointerValueOrDefault_c(const void* defaultValue)
+{
+    return currentMockSupport->returnConstPointerValueOrDefault(defaultValue);
+}
+
+void (*mockFunctionPointerReturnValue_c())()
+{
+    return (void (*)()) currentMockSupport->functionPointerReturnValue();
+}
+
+void (*mockReturnFunctionPointerValueOrDefault_c(void (*defaultValue)()))()
+{
+    return (void (*)()) currentMockSupport->returnFunctionPointerValueOrDefault((cpputest_cpp_function_pointer) defaultValue);
 }
 
 void checkExpectations_c()
